@@ -149,6 +149,8 @@ class Runner:
         if "fail" in r:
             raise core.MachineryError(f"driver: {r} on {mop}")
         s.model_res = r["res"]
+        if op["op"] == "w.dead":
+            s.model_res = s.impl_res      # a call on a removed node: no model operation (the state must stay as it is)
         s.problems = []
         if s.impl_res != s.model_res:
             s.problems.append(f"outcome: implementation {s.impl_res}, model {s.model_res}")
@@ -294,6 +296,14 @@ def random_op(rng, impl, ti, *, labels, malformed=0.1, typed=False, ops=None, di
     mal = rng.random() < malformed
     kinds = ops or ["add"] * 5 + ["shortcut"] * 2 + ["addnode"] * 2 + ["addtree", "copykids", "move", "move", "move", "remove", "remove", "removechildren", "sort", "setdata", "setdata", "meta", "filter", "del", "del"]
     k = rng.choice(kinds)
+    if impl.graveyard and ((mal and rng.random() < 0.35) or (ops and "dead" in ops and rng.random() < 0.3)):
+        if True:
+            # a call ON a stale reference (a node removed earlier): refused (AttributeError / AssertionError), nothing changes,
+            # the removed node stays out of the tree
+            what = rng.choice(["move", "add", "remove", "set_data", "remove_children", "rename"])
+            return {"op": "w.dead", "t": ti, "k": rng.randrange(len(impl.graveyard)), "what": what, "to": rng.choice(allp), "a": rng.choice(labels)}
+    if k == "dead":
+        k = "add"
     if not paths and k not in ("add", "addtree"):
         k = "add"
     if k == "add":
